@@ -69,11 +69,12 @@ type world struct {
 	facts   []isaac.ProposalFact
 	factpk  []pkey
 	factid  map[string]int // fact hash -> fact index
+	signed  map[int]int    // fact index -> number of signed proposals made for it
 }
 
 func newWorld(seed uint64) *world {
 	p, g := poolh.NewGatedPool()
-	w := &world{pool: p, gate: g, seed: seed, ballots: map[string]int{}, blkey: map[int]bkey{}, props: map[string]int{}, factid: map[string]int{}}
+	w := &world{pool: p, gate: g, seed: seed, ballots: map[string]int{}, blkey: map[int]bkey{}, props: map[string]int{}, factid: map[string]int{}, signed: map[int]int{}}
 	for i := 0; i < 4; i++ {
 		w.prevs = append(w.prevs, valuehash.NewSHA256([]byte(fmt.Sprintf("verif-c24-prev-%d", i))))
 	}
@@ -128,7 +129,11 @@ func (w *world) newFact(k pkey) int {
 
 func (w *world) factCoq(i int) string { return vh.Tuple(w.factpk[i].coq(), vh.N(uint64(i))) }
 
-func (w *world) newProposal(fi int, signer int) (base.ProposalSignFact, int) {
+func (w *world) newProposal(fi int, _ int) (base.ProposalSignFact, int) {
+	// every signed proposal of one fact gets its own signer: signatures are deterministic, the same signer would
+	// produce an indistinguishable object
+	signer := w.signed[fi]
+	w.signed[fi]++
 	sf := isaac.NewProposalSignFact(w.facts[fi])
 	if err := sf.Sign(poolh.Key(w.seed, signer), netID); err != nil {
 		panic(err)
@@ -402,6 +407,9 @@ func randBKey(rd *vh.Rand, base int64) bkey {
 func fixBKey(k bkey) bkey {
 	if k.stage == 1 {
 		k.sc = false // suffrage confirm is an INIT-stage fact
+	}
+	if k.h == 0 {
+		k.round = 0 // the genesis point has round 0 only (StagePoint.IsValid)
 	}
 	return k
 }
